@@ -210,7 +210,7 @@ class loops(wrapper):
         res = self._wrapped(arg_, args_, kwargs_)
         return _T(res)
 
-    def wrapped(self, *args, **kwargs):
+    def wrapped(self, /, *args, **kwargs):
         top = self.first
         if len(args) == 0 and not top in kwargs:
             return self.function(*args, **kwargs)
@@ -348,7 +348,7 @@ class pd2np(wrapper):
     def __init__(self, function = None, exc = None, function_fullargspec = None):
         super(pd2np, self).__init__(function = function, exc = as_list(exc), function_fullargspec = function_fullargspec)
     
-    def wrapped(self, *args, **kwargs):
+    def wrapped(self, /, *args, **kwargs):
         arg = getcallarg(self.function, args, kwargs)
         excluded = {key:value for key, value in kwargs.items() if key in self.exc}
         kwargs_ = {key:value for key, value in kwargs.items() if key not in self.exc}
@@ -393,7 +393,7 @@ class skip_if_data_pd(wrapper):
     >>> assert list(res.values) == [0,1,2,3] + [16,25]
     
     """
-    def wrapped(self, *args, **kwargs):
+    def wrapped(self, /, *args, **kwargs):
         data = kwargs.pop('data', None)
         if is_pd(data):
             data = data.iloc[:-1]
@@ -438,7 +438,7 @@ class skip_if_data_pd_or_np(wrapper):
     >>> assert list(res) == [0,1,2,3] + [16,25]
     
     """
-    def wrapped(self, *args, **kwargs):
+    def wrapped(self, /, *args, **kwargs):
         data = kwargs.pop('data', None)
         arg = getcallarg(self.function, args, kwargs)
         index = kwargs.pop('index', arg.index if is_pd(arg) else None)
@@ -556,7 +556,7 @@ class grab_parameter_from_dict(wrapper):
             parameters.update(kwargs)
         super(grab_parameter_from_dict, self).__init__(function = function, parameters = parameters, strict = strict, function_fullargspec = function_fullargspec)
 
-    def wrapped(self, *args, **kwargs):
+    def wrapped(self, /, *args, **kwargs):
         spec = getargspec(self.function)
         callargs = getcallargs(self.function, *args, **kwargs)
         strict = self.strict
